@@ -91,6 +91,9 @@ pub struct Sc {
     /// are made by a second thread when bit i mod 63 is set.
     #[serde(default)]
     pub migrate: u64,
+    /// every write of two bytes or more goes through write_vectored, as two slices
+    #[serde(default)]
+    pub vectored: bool,
 }
 
 pub struct Rendered {
@@ -498,11 +501,39 @@ impl<'a> Write for Mon<'a> {
                 self.twin_pos += c;
             }
         }
+        let vectored = self.sc.vectored && buf.len() >= 2;
         let (res, wa) = on_thread!(self.helper, self.mask, self.writes.len(), {
             let w0 = crate::alloc_meter::work_bytes();
-            let res = self.stream.write(buf);
+            let res = if vectored {
+                // the same bytes handed over as two slices through write_vectored (what
+                // io::Write users with scattered buffers do); a call may take fewer bytes
+                // than offered, the rest is offered again until everything is taken
+                let cut = 1 + (self.writes.len() * 7 + buf.len() / 3) % (buf.len() - 1);
+                let mut taken = 0usize;
+                let mut r: io::Result<usize> = Ok(buf.len());
+                while taken < buf.len() {
+                    let (a, b): (&[u8], &[u8]) = if taken < cut { (&buf[taken..cut], &buf[cut..]) } else { (&buf[taken..], &[]) };
+                    match self.stream.write_vectored(&[io::IoSlice::new(a), io::IoSlice::new(b)]) {
+                        Ok(0) => {
+                            r = Err(io::Error::new(io::ErrorKind::WriteZero, "write_vectored took nothing"));
+                            break;
+                        }
+                        Ok(n) => taken += n,
+                        Err(e) => {
+                            r = Err(e);
+                            break;
+                        }
+                    }
+                }
+                r
+            } else {
+                self.stream.write(buf)
+            };
             (res, crate::alloc_meter::work_bytes().wrapping_sub(w0))
         });
+        if vectored {
+            self.probes.push("written-through-write_vectored");
+        }
         self.work_alloc += wa;
         // the call may have to look at what earlier writes left pending
         let last_term = self.rend.term_ends.iter().cloned().filter(|&t| t <= before).max().unwrap_or(0);
@@ -751,6 +782,7 @@ impl Property for C09 {
                 twin_chunk: 0,
                 sink_fail_at: None,
                 migrate: 0,
+                vectored: false,
             };
             let len = render(&sc).bytes.len();
             let lens: Vec<usize> = match rng.below(4) {
@@ -795,6 +827,7 @@ impl Property for C09 {
             twin_chunk: 0,
             sink_fail_at: None,
             migrate: 0,
+            vectored: false,
         };
         if rng.chance(1, 4) {
             let k = rng.urange(1, 2);
@@ -805,6 +838,7 @@ impl Property for C09 {
         if rng.chance(1, 8) {
             sc.migrate = rng.next_u64() | (1 << 63);
         }
+        sc.vectored = rng.chance(1, 6);
         if rng.chance(1, 4) {
             sc.sink_fail_at = Some(if rng.chance(1, 2) { rng.urange(0, 64) } else { rng.urange(0, rend.bytes.len()) });
         }
@@ -1242,6 +1276,9 @@ impl Property for C09 {
         }
         if sc.migrate != 0 {
             push!(Sc { migrate: 0, ..sc.clone() });
+        }
+        if sc.vectored {
+            push!(Sc { vectored: false, ..sc.clone() });
         }
         if sc.driver == Driver::Copy {
             // same partition through direct writes
